@@ -100,6 +100,10 @@ func genCursorCase(t *rapid.T) interface{} {
 			default:
 				b.Txs = append(b.Txs, mTx{Kind: "other"})
 			}
+			// now and then the transaction failed on Minter (it is in the block, with a non-zero code): it is no event
+			if rapid.IntRange(0, 11).Draw(t, "failed") == 0 {
+				b.Txs[len(b.Txs)-1].Failed = true
+			}
 		}
 		c.Blocks = append(c.Blocks, b)
 	}
